@@ -693,7 +693,7 @@ func init() {
 		},
 		Stages: []*fw.Stage{
 			{
-				Name: "histories", N: q(1500, 60000),
+				Name: "histories", N: q(1500, 24000),
 				Run: func(c *fw.Case) {
 					n := c.R.Range(1, 200)
 					if c.R.Chance(1, 8) {
@@ -712,7 +712,7 @@ func init() {
 				},
 			},
 			{
-				Name: "concurrent", Race: true, N: q(300, 6000),
+				Name: "concurrent", Race: true, N: q(300, 2400),
 				GoMaxProcs: func(shard int) int { return []int{2, 4, 8, 16}[shard%4] },
 				Run: func(c *fw.Case) {
 					if c.W.Hooks != nil {
